@@ -6,7 +6,8 @@
    line the server read; final state; how handle() ended).  Quantification: every
    configuration, every banner verdict, every list of items; an item is a parsed command
    line (any word, any argument bytes) together with the application's decisions for every
-   callback that line can reach (any verdict: keep / any code / raise), the queue result,
+   callback that line can reach (any verdict: keep / any code / raise an Exception, a
+   gevent.Timeout or a GreenletExit-like BaseException), the queue result,
    the message content, the AUTH and TLS oracle results. *)
 From Coq Require Import List NArith Bool.
 From SV Require Import lib.Bytes model.Server proof.Server_lemmas.
@@ -39,9 +40,10 @@ Print Assumptions C07_error_no_callback.
 
 (* From ANY state: after an RSET/EHLO/HELO answered 250, and after every DATA whose content
    was transferred (354 sent; accepted, rejected, too big, queue error, 421 ...), the server's
-   have_mailfrom/have_rcptto are false and the edge session's envelope is None. *)
+   have_mailfrom/have_rcptto are false and the edge session's envelope is None - provided no
+   callback of that command raised (then the session is over, see C07_raising_callback). *)
 Theorem C07_reset : forall st it,
-  o_fin (snd (step st it)) <> Crashed ->
+  raised (snd (step st it)) = false ->
   (resets (it_line it) = true /\ o_replies (snd (step st it)) = [250]) \/
   (classify (it_line it) = CData /\ In 354 (o_replies (snd (step st it)))) ->
   s_mail (sv (fst (step st it))) = false /\ s_rcpt (sv (fst (step st it))) = false /\
@@ -58,12 +60,16 @@ Print Assumptions C07_server_edge_agree.
 
 (* The connection start gets one reply; the i-th command line read gets `inter ++ [c]`:
    one final reply c, preceded only by 354 (DATA accepted), by one 334 per AUTH challenge
-   round, or - the single exception - by the 220 of a STARTTLS whose handshake then fails
-   (c = 421, session closed).  Lines after the end of the session get nothing. *)
+   round, or by the 220 of a STARTTLS whose handshake then fails (c = 421, session closed).
+   The single documented exception (`killed_shape`, second disjunct of `shape`/`banner_shape`):
+   a callback of that line is killed by a GreenletExit-like BaseException (one of the line's
+   decisions is VRaise FKill): only the intermediates already written, the session is over.
+   Any other raising callback - Exception subclass, gevent.Timeout - is answered (421).
+   Lines after the end of the session get nothing. *)
 Theorem C07_one_reply_per_command : forall cfg vb items outs st f,
   run_session cfg vb items = (outs, st, f) ->
   exists o0 os, outs = o0 :: os /\
-    (exists c, o_replies o0 = [c]) /\
+    banner_shape vb o0 /\
     Forall2 shape (firstn (length os) items) os /\
     (length os <= length items)%nat /\
     (f = Continue -> length os = length items).
@@ -85,3 +91,14 @@ Theorem C07_closed_only_by_close_code : forall cfg vb items outs st,
   exists pre o before c, outs = pre ++ [o] /\ o_replies o = before ++ [c] /\ is_close c = true.
 Proof. exact closed_only_by_close_code. Qed.
 Print Assumptions C07_closed_only_by_close_code.
+
+(* Whatever a callback raises, the session ends with that command; an Exception subclass or a
+   gevent.Timeout (a BaseException) leaking out of the application's callback is answered with a
+   final 421; only a kill (GreenletExit family) goes unanswered. *)
+Theorem C07_raising_callback : forall st it,
+  raised (snd (step st it)) = true ->
+  o_fin (snd (step st it)) <> Continue /\
+  ((exists inter, o_replies (snd (step st it)) = inter ++ [421]) \/
+   (has_kill it = true /\ o_fin (snd (step st it)) = Crashed)).
+Proof. exact raising_callback. Qed.
+Print Assumptions C07_raising_callback.
